@@ -4,6 +4,10 @@ Static clauses:
   S-STALE    every field of tx3_cardano::Compiler that is written after construction by a `&mut self` method and read in the
              closure of reduce_op must be re-initialised for each resolution: some method reachable from resolve_tx must reset it
              to a history-independent value before the first read; otherwise state of an earlier transaction leaks
+  S-REFRESH  a field compile() writes and reduce_op reads (the body kept for min_utxo sizing) is replaced on *every* path of
+             compile() that returns Ok, helpers inlined, by a value that does not come from the field itself: each round of the
+             resolve loop then sizes against the transaction being resolved.  Keyed apart from S-STALE, so the listed
+             first-round leak does not hide a body that is never replaced
   S-NOSTATE  resolve_tx / eval_pass / inputs::resolve keep no state across calls: no statics and no interior mutability in the
              resolver and compiler crates' resolve closure
 Not decided: that the fix-point reached is independent of the starting body when no reset exists (value-level).
